@@ -50,6 +50,9 @@ pub const LOW_ALIGN: [usize; 14] = [0, 1, 5, 11, 24, 12, 30, 23, 2, 14, 13, 14, 
 /// Menu of profile 4: big values (records well above 1 KB).
 pub const BIG: [usize; 14] = [35, 31, 33, 21, 17, 36, 3, 2, 35, 36, 35, 26, 42, 42];
 
+/// Menu of profile 5: plain (`Copy`) data only, every one of them allowed to stay uninitialised.
+pub const PLAIN: [usize; 16] = [0, 1, 2, 3, 5, 6, 8, 9, 10, 11, 15, 29, 30, 33, 37, 7];
+
 pub const NAME_POOL: [&str; 12] =
     ["alpha", "beta", "gamma", "delta", "eps", "zeta", "count2", "is_ok", "the_value", "x_1", "kappa_mu", "n0"];
 
@@ -100,7 +103,7 @@ pub fn rhistory() -> impl Strategy<Value = RHistory> {
         prop_oneof![1 => Just(vec![]).boxed(), 9 => prop::collection::vec(block(false), 1..6).boxed()],
         strat_strategy(),
         0u8..4,
-        prop_oneof![10 => Just(0u8), 2 => Just(1u8), 2 => Just(2u8), 1 => Just(3u8), 2 => Just(4u8)],
+        prop_oneof![10 => Just(0u8), 2 => Just(1u8), 2 => Just(2u8), 1 => Just(3u8), 2 => Just(4u8), 2 => Just(5u8)],
     )
         .prop_map(|(first, rest, final_strat, fragsel, profile)| {
             let mut reqs = first;
@@ -151,6 +154,8 @@ pub struct Built {
     pub perturbed_id: Option<usize>,
     /// number of additions performed
     pub additions: usize,
+    /// datum id -> position of its declaration among the additions of the history
+    pub declared: BTreeMap<usize, usize>,
 }
 
 pub const MAX_VARIANTS: usize = 6;
@@ -274,6 +279,7 @@ pub fn build_ext(h: &RHistory, ext: &Ext) -> Built {
     let resolver = ProbeResolver { table: Default::default() };
     let mut b = NativeRecordDefinitionBuilder::new(&resolver);
     let mut menu = BTreeMap::new();
+    let mut declared = BTreeMap::new();
     let mut counter = 0usize;
     let mut ordinal = 0usize;
     let mut closes = 0usize;
@@ -291,6 +297,7 @@ pub fn build_ext(h: &RHistory, ext: &Ext) -> Built {
                 let mut idx = match h.profile {
                     1 => LOW_ALIGN[pick(*m, LOW_ALIGN.len())],
                     4 => BIG[pick(*m, BIG.len())],
+                    5 => PLAIN[pick(*m, PLAIN.len())],
                     _ => WEIGHTED[pick(*m, WEIGHTED.len())],
                 };
                 if h.fragsel & 2 == 2 && !MENU[idx].serde_ok {
@@ -333,7 +340,7 @@ pub fn build_ext(h: &RHistory, ext: &Ext) -> Built {
                 };
                 counter += 1;
                 let mut rec_info = info.clone();
-                let mut rec_uninit = *uninit && is_copy;
+                let mut rec_uninit = (*uninit || h.profile == 5) && is_copy;
                 // entry point of the addition: a pure function of the history
                 let name_is_hosts = idx < MARKER_BASE && idx != 40 && idx != 44;
                 let mut entry = match (ordinal + h.fragsel as usize + h.reqs.len()) % 7 {
@@ -404,6 +411,7 @@ pub fn build_ext(h: &RHistory, ext: &Ext) -> Built {
                     perturbed_id = Some(datum_index(id));
                 }
                 menu.insert(datum_index(id), idx);
+                declared.insert(datum_index(id), ordinal);
                 ordinal += 1;
                 pending = true;
             }
@@ -431,10 +439,24 @@ pub fn build_ext(h: &RHistory, ext: &Ext) -> Built {
     if pending || closes == 0 {
         close_generic(&mut b, h.final_strat);
     }
-    Built { def: b.build(), menu, perturbed_id, additions: ordinal }
+    Built { def: b.build(), menu, perturbed_id, additions: ordinal, declared }
 }
 
+/// A user's own fragment: emits one item per variant, nothing of the stock interface.
+pub struct UserFragment;
+
+impl FragmentGenerator for UserFragment {
+    fn generate(&self, specs: &truc::generator::fragment::FragmentGeneratorSpecs, scope: &mut codegen::Scope) {
+        scope.raw(&format!("pub const USER_FRAGMENT_SAW_VARIANT_{}: usize = {};", specs.record.variant.id(), specs.record.data.len()));
+    }
+}
+
+/// bit 0: clone fragment, bit 1: serde fragment (both on top of the common fragments);
+/// 4: `GeneratorConfig::new` with a user fragment only (no stock fragment at all).
 pub fn config_for(sel: u8) -> GeneratorConfig {
+    if sel & 4 == 4 {
+        return GeneratorConfig::new([Box::new(UserFragment) as Box<dyn FragmentGenerator>]);
+    }
     let mut custom: Vec<Box<dyn FragmentGenerator>> = vec![];
     if sel & 1 == 1 {
         custom.push(Box::new(CloneImplGenerator));
@@ -783,8 +805,11 @@ pub fn info_json(built: &Built, index: usize, fragsel: u8, history: &RHistory) -
     let variants: Vec<serde_json::Value> = (0..built.def.variants().count())
         .map(|v| {
             let var = built.def.variants().nth(v).unwrap();
-            let fields: Vec<serde_json::Value> = var
-                .data_sorted()
+            // fields in the order of their declaration (the order in which the history added them)
+            let mut in_declaration_order: Vec<DatumId> = var.data().collect();
+            in_declaration_order.sort_by_key(|d| built.declared[&datum_index(*d)]);
+            let fields: Vec<serde_json::Value> = in_declaration_order
+                .into_iter()
                 .map(|d| {
                     let datum = &built.def[d];
                     serde_json::json!({
